@@ -137,6 +137,7 @@ class SrcWorld(World):
         ent = st.S
         out["pre_step"] = ent.h.states.step.name
         out["pre_state"] = ent.h.state.name
+        out["pre_progress"] = getattr(getattr(getattr(ent.h, "_params", None), "fp", None), "progress", None)
         rem = [clock.remaining(t) for t in clock.timers(ent.h)]
         out["timers"] = [len(rem), sum(1 for r in rem if r == 0)]  # armed timers, of which expired at call entry
         if k == "tick":
@@ -188,7 +189,7 @@ class SrcWorld(World):
         pass
 
     def quiet(self, obs):
-        return set(obs) <= {"pre_step", "post_step", "pre_state", "post_state", "dt", "timers"} and obs.get("pre_step") == obs.get("post_step")
+        return set(obs) <= {"pre_step", "post_step", "pre_state", "post_state", "pre_progress", "dt", "timers"} and obs.get("pre_step") == obs.get("post_step")
 
     @staticmethod
     def inds(out, kind=None):
